@@ -165,6 +165,50 @@ func genOutsideCase(rng *fw.Rng) (*SnapCase, string) {
 	default:
 		set(tr, rng.Intn(len(ring)))
 	}
+	wrapped := false
+	if rng.Chance(1, 6) {
+		// "wrap" mode: an inside vertex at a pixel centre, followed in the same ring by that vertex displaced by an exact
+		// power-of-two number of deepest-level pixels (at least one grid width) along one or both axes: the displaced vertex
+		// has the same position within its pixel and a pixel address that is congruent to an indexed one modulo 2^j, so
+		// address arithmetic that truncates, folds or interleaves bits maps it onto a pixel that already holds a point.
+		i := rng.Intn(len(ring) - 1)
+		v := ring[i]
+		v[0] = gs.OX + (v[0]-gs.OX)/pix*pix + pix/2
+		v[1] = gs.OY + (v[1]-gs.OY)/pix*pix + pix/2
+		var js []int
+		for _, j := range []int{int(req.D), int(req.D) + 1, 16, 24, 31, 32, 33, 40, 48} {
+			if j >= int(req.D) && j < 62 && float64(pix)*math.Ldexp(1, j) < 4e18 {
+				js = append(js, j)
+			}
+		}
+		if len(js) > 0 && v[0] >= gs.OX && v[1] >= gs.OY && v[0] < gs.MaxX-pix && v[1] < gs.MaxY-pix {
+			j := fw.Pick(rng, js)
+			d := pix << uint(j)
+			w := v
+			axes := rng.Intn(3) // x, y, both
+			sign := int64(1)
+			if rng.Chance(1, 4) {
+				sign = -1
+			}
+			ok := true
+			for ax := 0; ax < 2; ax++ {
+				if axes == ax || axes == 2 {
+					if (sign > 0 && w[ax] > math.MaxInt64/2-d) || (sign < 0 && w[ax] < math.MinInt64/2+d) {
+						ok = false
+						break
+					}
+					w[ax] += sign * d
+				}
+			}
+			if ok {
+				ring[i] = v
+				ring[i+1] = w
+				where = append([]string{fmt.Sprintf("wrap:2^%d-pixels", j)}, where...)
+				nOut++
+				wrapped = true
+			}
+		}
+	}
 	kindSuffix := ""
 	if nOut > 0 && rng.Chance(1, 1500) {
 		// a large polygon (thousands of points, all but a few inside): either the outside vertex sits late in a long
@@ -194,7 +238,7 @@ func genOutsideCase(rng *fw.Rng) (*SnapCase, string) {
 		kind = "outside:" + where[0]
 	}
 	// sometimes an astronomically far vertex: beyond what the 1e-10 integer representation can hold
-	if nOut > 0 && rng.Chance(1, 40) {
+	if nOut > 0 && !wrapped && rng.Chance(1, 40) {
 		v := fw.Pick(rng, []float64{9.3e8, 1e9, 1e10, 1.8446744073709552e9, 1e15, 1e30, 1e300, math.MaxFloat64}) // (no infinities: a case must be expressible in JSON)
 		if rng.Bool() {
 			v = -v
@@ -348,7 +392,7 @@ func init() {
 			}
 			judgeC09(c, &sc)
 		},
-		Rule:        "polygons near each of the four borders with 1..all vertices moved outside by {1,2,3,10,1e3,1e6 units; 1/4, 1/2, 0.999, 1, 1.5, 100 pixels; exactly on the right/top border; far}, on grids with zero, negative and real-world origins, shallow and deep ids; outside is decided on the tool's 1e-10 integer ordinates against the half-open integer extent; observed: panic value without the ignore flag, result with it, InsertPoint error; non-trivial = nearest outside vertex less than one pixel outside",
+		Rule:        "polygons near each of the four borders with 1..all vertices moved outside by {1,2,3,10,1e3,1e6 units; 1/4, 1/2, 0.999, 1, 1.5, 100 pixels; exactly on the right/top border; far; an indexed inside vertex displaced by 2^j deepest-level pixels (wrap)}, on grids with zero, negative and real-world origins, shallow and deep ids; outside is decided on the tool's 1e-10 integer ordinates against the half-open integer extent; observed: panic value without the ignore flag, result with it, InsertPoint error; non-trivial = nearest outside vertex less than one pixel outside",
 		Required:    func(string) []string { return required },
 		MinNonTriv:  500,
 		Assumptions: []string{"distances below 1e-10 CRS units are below the tool's coordinate resolution and not generated", "polygons entirely inside are controls and not judged here (C06)"},
